@@ -122,6 +122,18 @@ func c06oslink(env *core.Env, res *core.CaseResult) {
 	_ = hackpadfs.Symlink(osfs, "dir/target", "link")
 	_ = hackpadfs.Symlink(osfs, "dir", "dirlink")
 	_ = hackpadfs.Symlink(osfs, "nowhere", "dangling")
+	// a mount.FS whose ROOT is the os.FS: a mount point may be a symbolic link to a directory (Open and Stat see a directory there)
+	if m2, err := mount.NewFS(osfs); err == nil {
+		onLink, _ := mem.NewFS()
+		res.Count("addmount_at_symlinked_directory", 1)
+		if aerr := m2.AddMount("dirlink", onLink); aerr != nil {
+			res.Violate("C06|AddMount|symlinked-directory|got=fail,want=ok", fmt.Sprintf("AddMount(\"dirlink\") on a mount.FS rooted at an os.FS, dirlink being a symbolic link to the directory dir, failed: %v", aerr), nil)
+		} else if werr := hackpadfs.WriteFullFile(m2, "dirlink/landed", []byte("x"), 0o644); werr != nil {
+			res.Violate("C06|AddMount|symlinked-directory|new-mount-not-routed", fmt.Sprintf("after AddMount(\"dirlink\") writing below it failed: %v", werr), nil)
+		} else if _, serr := hackpadfs.Stat(onLink, "landed"); serr != nil {
+			res.Violate("C06|AddMount|symlinked-directory|new-mount-not-routed", "after AddMount(\"dirlink\") a file written below it did not land in the mounted file system", nil)
+		}
+	}
 	root, _ := mem.NewFS()
 	_ = hackpadfs.Mkdir(root, "a", 0o755)
 	m, err := mount.NewFS(root)
@@ -154,6 +166,15 @@ type c06faultCase struct {
 	Mode      uint32 // mode of the source file (0 = 0640)
 	// Caps: "" both mounts can Rename; "src-no-rename" / "dst-no-rename": that mount's file system has no Rename
 	Caps string `json:",omitempty"`
+	// LookAlike: the existing destination has the source's base name, size, mode and modification time (other bytes)
+	LookAlike bool `json:",omitempty"`
+}
+
+// c06valueFS is a file system that is mounted BY VALUE and cannot be compared (it holds a slice): whoever compares two
+// mounted file systems with == panics.
+type c06valueFS struct {
+	*c06faultFS
+	tags []string
 }
 
 // c06noRename presents a c06faultFS without its Rename (everything else the mount FS may want is passed on).
@@ -198,6 +219,10 @@ func c06faultCases() []c06faultCase {
 				}
 				cs = append(cs, c06faultCase{Src: src, Dst: dst, DstExists: ex, Side: "none", Mode: uint32(0o640) | 1<<31, Caps: "src-no-rename"})
 				cs = append(cs, c06faultCase{Src: src, Dst: dst, DstExists: ex, Side: "none", Mode: uint32(0o640) | 1<<31, Caps: "dst-no-rename"})
+				cs = append(cs, c06faultCase{Src: src, Dst: dst, DstExists: ex, Side: "none", Mode: uint32(0o640) | 1<<31, Caps: "value-typed"})
+				if ex {
+					cs = append(cs, c06faultCase{Src: src, Dst: dst, DstExists: ex, Side: "none", Mode: uint32(0o640) | 1<<31, LookAlike: true})
+				}
 			}
 		}
 	}
@@ -252,6 +277,14 @@ func c06crossfault(env *core.Env, cs c06case, idx int, res *core.CaseResult) {
 	} else if fc.DstExists {
 		_ = hackpadfs.WriteFullFile(dstIn, fc.Dst, []byte("previous contents of the destination"), 0o604)
 	}
+	if fc.LookAlike && fc.DstExists {
+		// same base name (for equal relative names), same size, same mode, same modification time - and other bytes
+		_ = hackpadfs.WriteFullFile(dstIn, fc.Dst, []byte(strings.Repeat("fedcba9876543210", 1024)), 0o640)
+		_ = hackpadfs.Chmod(dstIn, fc.Dst, srcMode)
+		when := time.Unix(1_600_000_000, 0)
+		_ = hackpadfs.Chtimes(srcIn, fc.Src, when, when)
+		_ = hackpadfs.Chtimes(dstIn, fc.Dst, when, when)
+	}
 	m, err := mount.NewFS(root)
 	if err == nil {
 		_ = hackpadfs.Mkdir(root, "a", 0o755)
@@ -262,6 +295,8 @@ func c06crossfault(env *core.Env, cs c06case, idx int, res *core.CaseResult) {
 			srcMount = c06noRename{srcFS}
 		case "dst-no-rename":
 			dstMount = c06noRename{dstFS}
+		case "value-typed":
+			srcMount, dstMount = c06valueFS{srcFS, []string{"a"}}, c06valueFS{dstFS, []string{"b"}}
 		}
 		if err = m.AddMount("a", srcMount); err == nil {
 			err = m.AddMount("b", dstMount)
@@ -287,6 +322,9 @@ func c06crossfault(env *core.Env, cs c06case, idx int, res *core.CaseResult) {
 	res.Count("crossfault_cases", 1)
 	if fc.Caps != "" {
 		dk += "," + fc.Caps
+	}
+	if fc.LookAlike {
+		dk += ",look-alike"
 	}
 	sig := func(what string) string {
 		return fmt.Sprintf("C06|Rename|cross-mount,copy-fault=%s,%s|%s", fc.Side, dk, what)
